@@ -313,6 +313,18 @@ def run_real(kind):
                 pass
         if extra:
             problems.append('%d frames invented after the peer disconnected' % extra)
+        # ... and with nothing to deliver the wait still lasts its timeout (the connection is open; only the peer is gone)
+        for tmo, exc in ((0.12, True), (0.2, False)):
+            t0 = time.monotonic()
+            try:
+                got = conn.wait_frame(timeout=tmo, exception=exc)
+                if exc or got is not None:
+                    problems.append('after the peer disconnected wait_frame(timeout=%.2f, exception=%s) returned %r' % (tmo, exc, got))
+            except TimeoutException:
+                if not exc:
+                    problems.append('exception=False raised after the peer disconnected')
+            if time.monotonic() - t0 < tmo - 0.002:
+                problems.append('after the peer disconnected a timeout of %.2f s was given up after %.4f s' % (tmo, time.monotonic() - t0))
         t0 = time.monotonic()
         conn.close()
         if conn.rxthread is not None and conn.rxthread.is_alive():
